@@ -77,6 +77,22 @@ reg('C06', 'exploration',
     'contents, lengths, strides, types, defaults, constants and the alignment '
     'postcondition; the output-array list is observed, not asserted.')
 
+reg('C01', 'exploration',
+    'numpy brute-force MUST/MAY reference sets compared with every query of '
+    'all 12 NNPS classes over generated clouds, knob vectors, update '
+    'histories, cache off/on (on: filled by the OpenMP loop); the same '
+    'workload replayed on gcc ASan+UBSan and TSan builds (with a libgomp '
+    'happens-before shim) of the working tree and of cyarray',
+    'Held on every query explored (about 1.5 million per quick run) for the '
+    'nine classes without a listed finding; four listed known findings (the '
+    'z-order family with several or empty arrays, StratifiedSFCNNPS, octrees '
+    'with coincident particles) are keyed by class family + structural '
+    'condition so any other failure is still reported.',
+    'Input domain: h > 0, |x|/cell < 2^20, <= 2^22 cells, unused coordinates '
+    'constant; thread count set before construction; knob vectors whose '
+    'stencil exceeds 2e5 boxes per query are skipped as too costly; a '
+    'watchdog firing is inconclusive, never a violation.')
+
 _pending = {
 }
 for _i in range(1, 21):
